@@ -97,6 +97,10 @@ static struct acq_ghost
     int trig[2];
     int dm_destroyed;
     int closed_under_worker; /* the violation above happened: the state has left the invariant */
+    /* the workers' own readers: [stream][0 sink reader on sink.in, 1 filter reader on filter.in] */
+    int wr_intervals[2][2];
+    int wr_mapped[2][2];
+    size_t wr_len[2][2];
 } ag;
 
 static struct runtime* g_rt; /* the runtime under test */
@@ -406,6 +410,11 @@ thread_create(struct thread* self, void (*proc)(void*), void* args)
     /* a finished but unjoined previous worker only loses its handle; no property speaks
      * about that */
     /* thread creation is assumed to succeed (stated in the evidence) */
+    if (k == 1 || k == 2) {
+        int r = (k == 2) ? 0 : 1;
+        VASSERT(ag.wr_intervals[s][r] == 0 && !ag.wr_mapped[s][r],
+                "[C09.next-acquisition-starts-clean,C07.no-leftovers,C04.no-leftovers] a sink/filter worker is started on a reader that still has unread data of an earlier acquisition (those frames would be stored as part of the new one)");
+    }
     ag.live[s][k] = 1;
     ag.creates[s][k]++;
     struct video_s* v = &g_rt->video[s];
@@ -449,9 +458,22 @@ thread_join(struct thread* self)
         } else if (k == 1) {
             v->filter.is_running = 0;
             v->filter.is_stopping = 0;
+            /* filter.thread: the reader is left unmapped; its single final process_data may
+             * leave a second interval (or, after an error, anything) unread */
+            ag.wr_mapped[s][1] = 0;
+            v->filter.reader.state = ChannelState_Unmapped;
+            ag.wr_intervals[s][1] = nd_uchar() % 3;
+            if (ag.wr_intervals[s][1])
+                v->filter.reader.id = 3;
         } else {
             v->sink.is_running = 0;
             v->sink.is_stopping = 0;
+            /* sink.thread: unmapped; drained after a normal exit, anything after a storage error */
+            ag.wr_mapped[s][0] = 0;
+            v->sink.reader.state = ChannelState_Unmapped;
+            ag.wr_intervals[s][0] = nd_bool() ? 0 : nd_uchar() % 3;
+            if (ag.wr_intervals[s][0])
+                v->sink.reader.id = 1;
             if (v->sink.storage)
                 storage_stop(v->sink.storage);
         }
@@ -497,6 +519,20 @@ channel_read_map(struct channel* self, struct channel_reader* reader)
 {
     int s = stream_of(self);
     struct video_s* v = &g_rt->video[s];
+    static uint64_t frame_mem[16];
+    if ((self == &v->sink.in && reader == &v->sink.reader) || (self == &v->filter.in && reader == &v->filter.reader)) {
+        /* a worker's own reader, used by the runtime only while that worker is not running */
+        int r = (reader == &v->sink.reader) ? 0 : 1;
+        VASSERT(!ag.live[s][r == 0 ? 2 : 1] || !(r == 0 ? v->sink.is_running : v->filter.is_running),
+                "[C08.no-touch-under-a-worker] the runtime reads with a worker's reader while that worker runs");
+        VASSERT(reader->state == ChannelState_Unmapped, "[C06.map-needs-unmapped-reader] read_map on a worker reader that still holds a region");
+        if (ag.wr_intervals[s][r] == 0)
+            return (struct slice){ (uint8_t*)frame_mem, (uint8_t*)frame_mem };
+        reader->state = ChannelState_Mapped;
+        ag.wr_mapped[s][r] = 1;
+        ag.wr_len[s][r] = 8 * (size_t)(1 + nd_uchar() % 15);
+        return (struct slice){ (uint8_t*)frame_mem, (uint8_t*)frame_mem + ag.wr_len[s][r] };
+    }
     VASSERT(self == &v->sink.in && reader == &v->monitor.reader, "[C06.monitor-reads-its-own-stream] the public reader is the stream's monitor reader on the sink channel");
     VASSERT(reader->state == ChannelState_Unmapped,
             "[C06.map-needs-unmapped-reader] channel_read_map is called on a reader that still holds a region (it would be marked Expected_Unmapped_Reader for good and every later acquire_map_read would fail)");
@@ -512,7 +548,6 @@ channel_read_map(struct channel* self, struct channel_reader* reader)
     /* while workers run the writer may have committed more (at most one lap ahead) */
     if (ag.live[s][0] || ag.live[s][1])
         ag.mon_intervals[s] = nd_uchar() % 3;
-    static uint64_t frame_mem[16];
     if (ag.mon_intervals[s] == 0) {
         /* empty only when drained (C01). The real channel returns {NULL,NULL}; the stub returns
          * an empty slice at a valid address because CBMC treats NULL-NULL as a fatal pointer
@@ -531,6 +566,16 @@ channel_read_unmap(struct channel* self, struct channel_reader* reader, size_t c
 {
     int s = stream_of(self);
     struct video_s* v = &g_rt->video[s];
+    if ((self == &v->sink.in && reader == &v->sink.reader) || (self == &v->filter.in && reader == &v->filter.reader)) {
+        int r = (reader == &v->sink.reader) ? 0 : 1;
+        if (reader->state != ChannelState_Mapped)
+            return;
+        reader->state = ChannelState_Unmapped;
+        ag.wr_mapped[s][r] = 0;
+        if (consumed_bytes >= ag.wr_len[s][r])
+            ag.wr_intervals[s][r]--;
+        return;
+    }
     VASSERT(self == &v->sink.in && reader == &v->monitor.reader, "[C06.monitor-reads-its-own-stream] unmap of the stream's monitor reader");
     if (reader->state != ChannelState_Mapped)
         return;
